@@ -169,10 +169,18 @@ def nodes_matching(g, pattern: str, bound=None, kinds=("stmt", "return", "test",
 def guarded(g, node, pattern: str, label: str, bound=None, only_raise_otherwise=True) -> bool:
     """`node` requires the `label` edge of a test matching `pattern`; the test's other edge never reaches `node`
     (and, with only_raise_otherwise, cannot complete the function normally through it... it may only raise)"""
+    # the complementary spelling of the same guard: `a != b` on the F edge is `a == b` on the T edge (and so on)
+    alts = [(pattern, label)]
+    for neg, pos in (("!=", "=="), (" is not ", " is "), (" not in ", " in ")):
+        for a_, b_ in ((neg, pos), (pos, neg)):
+            if a_ in pattern and pattern.count(a_) == 1 and not (a_ == "==" and "!=" in pattern) and not (a_ == " is " and " is not " in pattern) \
+                    and not (a_ == " in " and (" not in " in pattern or " for " in pattern)):
+                alts.append((pattern.replace(a_, b_), "T" if label == "F" else "F"))
     for t, lab in g.guards_of(node):
-        if lab != label or pmatch(pattern, t.ast, bound) is None:
+        if not any(lab == l_ and pmatch(p_, t.ast, bound) is not None for p_, l_ in alts):
             continue
-        other = "T" if label == "F" else "F"
+        label_ = lab
+        other = "T" if label_ == "F" else "F"
         tgt = [m for m, l in g.succ[t.id] if l == other]
         reach = g.reachable_from(tgt)
         if node.id in reach:
